@@ -1188,3 +1188,100 @@ Proof.
   - rewrite firstn_map.
     destruct ((0 <? n) && Nat.eqb (length M) 0); destruct nm; reflexivity.
 Qed.
+
+(* ---------- every well-formed call ---------- *)
+Theorem sim_step_raw s t o : Rsim s t -> wf_op_sim s o = true -> sim_raw s t o.
+Proof.
+  intros R Hwf. assert (Hw : wf_op s o = true) by (unfold wf_op_sim in Hwf; now apply andb_true_iff in Hwf as [Hw _]).
+  destruct o.
+  - now apply sim_create.
+  - now apply sim_mkdir.
+  - now apply sim_mkdirall.
+  - now apply sim_open.
+  - now apply sim_openfile.
+  - now apply sim_remove.
+  - now apply sim_removeall.
+  - now apply sim_rename.
+  - now apply sim_stat.
+  - now apply sim_chmod.
+  - now apply sim_chown.
+  - now apply sim_chtimes.
+  - now apply sim_hread.
+  - now apply sim_hreadat.
+  - now apply sim_hwrite.
+  - now apply sim_hwriteat.
+  - now apply sim_hwritestring.
+  - now apply sim_hseek.
+  - now apply sim_htruncate.
+  - now apply sim_hclose.
+  - now apply (sim_readdir false).
+  - now apply (sim_readdir true).
+  - now apply sim_hstat.
+  - now apply sim_hname.
+  - now apply sim_hsync.
+Qed.
+
+Theorem sim_step s t o : Rsim s t -> wf_op_sim s o = true ->
+  Rsim (fst (m_step s o)) (fst (p_step t o)) /\ mproj o (snd (m_step s o)) = snd (p_step t o).
+Proof.
+  intros R Hwf. destruct (sim_step_raw s t o R Hwf) as [R' Hp]. unfold m_step.
+  destruct (m_step_raw s o) as [s1 r]. cbn [fst snd] in *. split; [|exact Hp].
+  eapply Rsim_view; [| | |exact R']; reflexivity.
+Qed.
+
+Definition mproj_all (ops : list op) (outs : list res) : list pout := map (fun '(o, r) => mproj o r) (combine ops outs).
+
+Theorem sim_run : forall ops s t, Rsim s t -> wf_seq_sim s ops = true ->
+  mproj_all ops (snd (run_steps m_step s ops)) = snd (p_run t ops) /\
+  Rsim (fst (run_steps m_step s ops)) (fst (p_run t ops)).
+Proof.
+  induction ops as [|o ops IH]; intros s t R Hseq; [split; [reflexivity | exact R]|].
+  cbn [wf_seq_sim] in Hseq. apply andb_true_iff in Hseq as [Ho Hr].
+  destruct (sim_step s t o R Ho) as [R1 Hp]. cbn [run_steps p_run].
+  destruct (m_step s o) as [s1 x]. destruct (p_step t o) as [t1 px]. cbn [fst snd] in *.
+  destruct (IH s1 t1 R1 Hr) as [Hps R']. destruct (run_steps m_step s1 ops) as [s2 xs]. destruct (p_run t1 ops) as [t2 pxs].
+  cbn [fst snd] in *. split; [|exact R']. unfold mproj_all in *. cbn [combine map]. now rewrite Hp, Hps.
+Qed.
+
+(* ---------- what the relation lets one observe ---------- *)
+Definition mentry (s : mst) (k : str) : option (bool * bytes * Z) :=
+  match lookup s k with
+  | Some r => match get_node s r with
+              | Some n => Some (ndir n, if ndir n then [] else ndata n, Z.land (nmode n) chmod_bits)
+              | None => None
+              end
+  | None => None
+  end.
+(* same kind, same contents, and the permission bits agree wherever they were set explicitly *)
+Definition obs_agree (a : option (bool * bytes * Z)) (b : option (bool * bytes * option Z)) : Prop :=
+  match a, b with
+  | None, None => True
+  | Some (d, c, pm), Some (d', c', opm) => d = d' /\ c = c' /\ (forall p, opm = Some p -> pm = p)
+  | _, _ => False
+  end.
+
+Record Observe (s : mst) (t : pstate) : Prop := mkObserve {
+  ob_tree : forall k, obs_agree (mentry s k) (pentry t k);
+  ob_list : forall d r n, lookup s d = Some r -> get_node s r = Some n -> ndir n = true -> dir_names s n = plisting t d
+}.
+
+Theorem Rsim_observe s t : Rsim s t -> Observe s t.
+Proof.
+  intros R. split.
+  - intros k. unfold mentry, pentry. destruct (lookup s k) as [r|] eqn:Hl.
+    + destruct (rel_node s t k r R Hl) as (n & x & Hn & _ & _ & Hx & Hi). rewrite Hn, Hx.
+      destruct x as [pm|d pm]; cbn in Hi |- *.
+      * destruct Hi as [Hd Hm]. rewrite Hd. repeat split. intros p0 E. inversion E. now subst.
+      * destruct Hi as (Hd & Hdat & Hm). rewrite Hd. repeat split; auto.
+    + destruct (rel_none s t k R Hl) as [_ Hx]. now rewrite Hx.
+  - intros d r n Hl Hn Hd. symmetry. apply (is_listing_unique s d).
+    + apply plisting_is_listing; [exact R | apply (g_canon _ _ _ _ (rs_wf _ _ R) d r Hl)].
+    + now apply (listing_is_children s d r n (rs_wf _ _ R)).
+Qed.
+
+Theorem simulation ops : wf_seq_sim m_init ops = true ->
+  mproj_all ops (snd (run_steps m_step m_init ops)) = snd (p_run p_init ops) /\
+  Observe (fst (run_steps m_step m_init ops)) (fst (p_run p_init ops)).
+Proof.
+  intros Hseq. destruct (sim_run ops m_init p_init Rsim_init Hseq) as [Hp R]. split; [exact Hp | now apply Rsim_observe].
+Qed.
